@@ -183,15 +183,33 @@ Theorem C10_redirect_conservative : forall conf redir f m r text T,
 Proof. exact fqn_resolve_r_conservative. Qed.
 Print Assumptions C10_redirect_conservative.
 
-(* PARTIAL (soundness only; the full statement would be the analogue of C10_fqn over `reach` with a
-   uniqueness hypothesis over contained and stand-in objects together, and termination for acyclic callbacks):
-   whatever is resolved ends a chain of named objects, each contained in the previous one or in an object the
-   callback lets stand in for it -- never reached through `parent` or a non-containment reference. *)
-Theorem C10_redirect_genuine_partial : forall conf redir rf m r text T t,
+(* no hypothesis: whatever is resolved ends a chain of named objects, each contained in the previous one or in
+   an object the callback lets stand in for it -- never reached through `parent` or a non-containment reference. *)
+Theorem C10_redirect_genuine : forall conf redir rf m r text T t,
   fqn_resolve_r conf redir rf m r text T = XFound t ->
   exists i s, scope_at m r i s /\ chain_r redir r m s (split_dots text) t /\ conforms conf m t T = true.
 Proof. exact fqn_resolve_r_genuine. Qed.
-Print Assumptions C10_redirect_genuine_partial.
+Print Assumptions C10_redirect_genuine.
+
+(* C10_fqn with redirection, for callbacks that answer lists (never Postponed) whose elements are not redirected
+   themselves (as follow_loaded_models_scope_redirection_logic of FQNImportURI(importAs=True): the loaded models):
+   with names unique among contained and stand-in objects together, the provider resolves a dotted name exactly to the
+   end of the chain (over `reach`) from the nearest scope that has a well-typed one, answers unknown exactly when there is
+   none, and never postpones or runs out of the model's fuel.
+   PARTIAL with respect to arbitrary callbacks: nested (acyclic) redirections and Postponed answers are covered by
+   C10_redirect_genuine only. *)
+Theorem C10_redirect_fqn_partial : forall conf redir f m r text T,
+  parents_decrease m = true -> r < length m ->
+  (forall p, exists l, redir p = RList l) -> (forall p l x, redir p = RList l -> In x l -> redir x = RList []) ->
+  unique_on_r redir r m (split_dots text) ->
+  (forall t, fqn_resolve_r conf redir (S (S f)) m r text T = XFound t <->
+             resolves_g m (good_r conf redir r m T (split_dots text)) r t) /\
+  (fqn_resolve_r conf redir (S (S f)) m r text T = XUnknown <->
+   unresolvable_g m (good_r conf redir r m T (split_dots text)) r) /\
+  fqn_resolve_r conf redir (S (S f)) m r text T <> XOutOfFuel /\
+  fqn_resolve_r conf redir (S (S f)) m r text T <> XPostponed.
+Proof. exact fqn_resolve_r_exact. Qed.
+Print Assumptions C10_redirect_fqn_partial.
 
 (* ---- non-vacuity of the extensions *)
 Example C10_nonvacuous_import :
@@ -206,6 +224,12 @@ Example C10_nonvacuous_redirect :
   fqn_resolve_r wconf (fun _ => RList []) 3 w3 3 t_cpe 2 = XUnknown.
 Proof. vm_compute. repeat split; reflexivity. Qed.
 Print Assumptions C10_nonvacuous_redirect.
+
+Example C10_nonvacuous_redirect_hyps :
+  parents_decrease w3 = true /\ (forall p, exists l, w_redir p = RList l) /\
+  (forall p l x, w_redir p = RList l -> In x l -> w_redir x = RList []).
+Proof. exact w_redir_flat. Qed.
+Print Assumptions C10_nonvacuous_redirect_hyps.
 
 Example C10_nonvacuous_walked :
   wf_model w_py = false /\ parents_decrease w_py = true /\ fqn_resolve wconf w_py 0 t_pnk 7 = Found 3 /\
